@@ -207,7 +207,9 @@ RecoverTo(r) ==
               s   == out.st
               fin == [s EXCEPT !.chain = <<>>, !.hist = TruncHead(@, s.disk.id)]
           IN  /\ Set(IF out.ok THEN fin ELSE [s EXCEPT !.chain = <<>>])
-              /\ jr' = IF jr.has THEN [jr EXCEPT !.rolled = TRUE] ELSE jr    \* ghost: a rollback happened after the journal
+              \* the stored journal stays (ghost: a rollback happened after it was written), or the
+              \* rollback invalidates it (candidate fix of C20-F1); both are accepted
+              /\ jr' \in {IF jr.has THEN [jr EXCEPT !.rolled = TRUE] ELSE jr, NoJournal}
               /\ zombies' = {}
               /\ res' = [op |-> "Recover", w |-> r, ok |-> out.ok, can |-> TRUE, id |-> ids[r]]
 
